@@ -109,7 +109,8 @@ def shards(tier, seed):
         sh.append(("recvfault", L))
     sh += [("send", n) for n in (1, 2, 3, 24, 28, 64, 300, 4002)]
     if tier == "thorough":
-        sh += [("allcomp", L) for L in (0, 1, 2)]
+        # every composition of the 24/25/26-byte frames, sharded by the size of the first chunk
+        sh += [("allcomp", L, first) for L in (0, 1, 2) for first in range(24 + L)]
     return sh
 
 
@@ -118,7 +119,7 @@ def describe(tier, seed):
                        "all_compositions": "24..26-byte frames (thorough)"}, "exhaustive": True}
 
 
-def run_explore(rep, label, scenario, bound, expected, replay_base, max_execs=None):
+def run_explore(rep, label, scenario, bound, expected, replay_base, max_execs=None, root=()):
     check_deterministic(scenario)
 
     def on_exec(ctx, outcome):
@@ -130,7 +131,7 @@ def run_explore(rep, label, scenario, bound, expected, replay_base, max_execs=No
             rep.violation(f"{replay_base['op']}/{kind}/{replay_base.get('cls', '')}",
                           f"{label}: choices {ctx.choices!r} ({[p[0] for p in ctx.points]!r:.80}) -> {outcome}; expected one of {sorted(expected)}",
                           dict(replay_base, choices=list(ctx.choices)))
-    st = explore(scenario, bound, on_exec, max_execs=max_execs)
+    st = explore(scenario, bound, on_exec, max_execs=max_execs, root=root)
     if st["capped"]:
         rep.cap(f"{label}: max_execs")
     rep.add("explorations", 1)
@@ -166,9 +167,9 @@ def run_shard(shard, tier, seed):
                 rep.violation("receive/" + out.split(":")[0] + "/one-byte-chunks", f"receive L={L} delivered one byte per recv -> {out}", {"op": "receive", "L": L, "mode": "onebyte", "seed": seed})
         rep.sample({"frame_len": n, "executions": st["execs"], "bound": bound, "outcomes": st["outcomes"]})
     elif kind == "allcomp":
-        L = shard[1]
+        L, first = shard[1], shard[2]
         fr = frame(L, seed & 0xFF)
-        st = run_explore(rep, f"receive(all compositions) L={L}", recv_scenario(fr, None), len(fr), {"frame"}, {"op": "receive", "L": L, "cls": "segmentation", "mode": "recv", "seed": seed})
+        st = run_explore(rep, f"receive(all compositions) L={L}", recv_scenario(fr, None), len(fr), {"frame"}, {"op": "receive", "L": L, "cls": "segmentation", "mode": "recv", "seed": seed}, root=(first,))
         rep.sample({"frame_len": len(fr), "executions": st["execs"], "all_compositions": True})
     elif kind == "recvfault":
         L = shard[1]
